@@ -146,6 +146,62 @@ def _expand(ans: Dict[str, Any]) -> Dict[str, Any]:
     return ans
 
 
+# ---------------------------------------------------------------------------
+# statefulness of the decoder: what one consumer does to a decoded value must not reach the next decode
+# ---------------------------------------------------------------------------
+def _containers(v: Any, depth: int, out: List[Any]) -> None:
+    if isinstance(v, (list, dict)):
+        out.append(v)
+        if depth < 2:
+            for x in (v.values() if isinstance(v, dict) else v):
+                _containers(x, depth + 1, out)
+
+
+def _mutate_in_place(v: Any) -> int:
+    """At the top level and at depth 1 and 2: append to every list, replace its first item; set a new key in
+    every dict and delete its first key.  Returns the number of containers touched."""
+    found: List[Any] = []
+    _containers(v, 0, found)
+    for c in found:
+        if isinstance(c, list):
+            if c:
+                c[0] = "vf-mut-item"
+            c.append("vf-mut")
+        else:
+            for k in list(c)[:1]:
+                del c[k]
+            c["vf-mut"] = 1
+    return len(found)
+
+
+def child_state(v: Any) -> Dict[str, Any]:
+    from chuk_mcp.protocol import fast_json
+
+    t = fast_json.dumps(v)
+    b = t.encode("utf-8")
+    apis = {"loads-str": lambda: fast_json.loads(t), "loads-bytes": lambda: fast_json.loads(b),
+            "load-text": lambda: fast_json.load(io.StringIO(t)), "load-bytes": lambda: fast_json.load(io.BytesIO(b))}
+    out: Dict[str, Any] = {"shared": [], "changed": [], "containers": 0}
+    try:
+        for name, f in apis.items():
+            first, second = f(), f()
+            c1: List[Any] = []
+            c2: List[Any] = []
+            _containers(first, 0, c1)
+            _containers(second, 0, c2)
+            ids = {id(c) for c in c1}
+            if any(id(c) in ids for c in c2):
+                out["shared"].append(name)
+            out["containers"] = max(out["containers"], _mutate_in_place(first))
+            for name2, g in apis.items():
+                again = g()
+                if not strict_eq(v, again):
+                    out["changed"].append([name, name2, diff_kind(v, again)])
+    except BaseException as e:  # noqa: BLE001
+        out["exc"] = f"{type(e).__name__}: {e}"[:160]
+    return out
+
+
 # keyword arguments json.dumps accepts that still ask for a compact (single line) encoding
 COMPACT_KW: List[Tuple[str, Dict[str, Any]]] = [
     ("indent=None", {"indent": None}),
@@ -174,6 +230,8 @@ def child_handle(case: Any) -> Any:
     op = case[0]
     if op == "msg":
         return child_message(dec(case[1]))
+    if op == "state":
+        return child_state(dec(case[1]))
     if op == "enc":
         v = dec(case[1])
         level = case[2] if len(case) > 2 else "full"
@@ -256,7 +314,7 @@ class Tally:
 
 
 def judge_block(values: List[Any], pools: Dict[str, workers.Pool], tally: Tally, audit_store: Dict[str, list],
-                level: str = "full"):
+                level: str = "full", state_pools: Any = None):
     """Encode every value under every configuration, decode every distinct
     encoding under every configuration, compare.  Returns [(index, sig, msg)]."""
     names = list(pools)
@@ -343,6 +401,31 @@ def judge_block(values: List[Any], pools: Dict[str, workers.Pool], tally: Tally,
                                          "diff": diff_kind(v, got)},
                                      f"{dapi}[{n}]({api}[{prod}](v)) != v for v={short(v)}: encoding "
                                      f"{text_list[ti][:120]!r} decoded to {short(got)}"))
+    # statefulness: decode, mutate the decoded value in place, decode again (every container value)
+    idx = [i for i, v in enumerate(values) if isinstance(v, (list, dict))]
+    if idx:
+        st_cases = [["state", enc_cases[i][1]] for i in idx]
+        # processes of their own: what the mutations leave behind in a stateful decoder must not reach the
+        # encode/decode answers above
+        sp = state_pools or pools
+        st_ans = {n: sp[n].map(st_cases) for n in names}
+        for n in names:
+            _keep_audit(audit_store, n, st_cases, st_ans[n])
+            for i, a in zip(idx, st_ans[n]):
+                if "harness_exc" in a:
+                    raise core.HarnessError(f"worker {n}: {a['harness_exc']}")
+                tally.add("decode_mutate_decode_sequences", 16)
+                tally.add("containers_mutated", a.get("containers", 0))
+                if "exc" in a:
+                    viol.append((i, {"class": "decode-sequence-raised", "dec": n}, f"decode/mutate/decode of {short(values[i])} under {n}: {a['exc']}"))
+                for api in a.get("shared", []):
+                    viol.append((i, {"class": "decoded-values-share-state", "dec": n, "api": api},
+                                 f"two calls of {api} under {n} on the encoding of {short(values[i])} returned values that share a "
+                                 f"mutable nested object"))
+                for (api1, api2, kind) in a.get("changed", []):
+                    viol.append((i, {"class": "decode-after-mutation-differs", "dec": n, "mutated_via": api1, "decoded_via": api2},
+                                 f"under {n}: v={short(values[i])} decoded with {api1}, the result mutated in place, then decoded "
+                                 f"again with {api2}: no longer equal to v ({kind})"))
     return viol
 
 
@@ -591,7 +674,7 @@ def _driver_block(block: List[Any]) -> Dict[str, Any]:
         level, block = block
         tally = Tally()
         store: Dict[str, list] = {}
-        viol = judge_block(block, pools, tally, store, level)
+        viol = judge_block(block, pools, tally, store, level, workers.local_pools(CONFIGS, HANDLER, 1, tag="state"))
         return {"viol": viol, "tally": tally.c, "audit": store}
     except BaseException as e:  # noqa: BLE001 - surfaced as harness trouble by the parent
         import traceback
@@ -696,7 +779,10 @@ def run(tier: str, only=None) -> core.Result:
     from .. import orderdep
 
     audit_total = audit_bad = 0
-    jobs = [({**cfg, "name": "codec:" + cfg["name"]}, audit_store.get(cfg["name"], [])) for cfg in CONFIGS] + \
+    jobs = [({**cfg, "name": "codec:" + cfg["name"]}, [p_ for p_ in audit_store.get(cfg["name"], []) if p_[0][0] != "state"])
+            for cfg in CONFIGS] + \
+           [({**cfg, "name": "state:" + cfg["name"]}, [p_ for p_ in audit_store.get(cfg["name"], []) if p_[0][0] == "state"])
+            for cfg in CONFIGS] + \
            [({**cfg, "name": "msg:" + cfg["name"]}, msg_audit.get(cfg["name"], [])) for cfg in MSG_CONFIGS]
     jobs = [(cfg, pairs) for cfg, pairs in jobs if pairs]
 
@@ -711,9 +797,25 @@ def run(tier: str, only=None) -> core.Result:
         hello, again = again_all[cfg["name"]]
         if cfg["name"].startswith("codec:"):
             hellos[cfg["name"][6:]] = hello
+        state_checked = 0
         for (c, a), b in zip(reversed(pairs), again):
             audit_total += 1
             if workers.line(a) != workers.line(b):
+                if c[0] == "state" and state_checked < 3:
+                    # a decode/mutate/decode answer that depends on what the process decoded before is the library's
+                    # statefulness, provided the case answers the same twice when it is alone in a new process
+                    state_checked += 1
+                    base = {k: v for k, v in cfg.items() if k != "name"}
+                    base["name"] = cfg["name"].split(":", 1)[1]
+                    alone = workers.fresh_sequences(base, HANDLER, [[c], [c]])
+                    if workers.line(alone[0][0]) == workers.line(alone[1][0]):
+                        sig = {"class": "decode-depends-on-history", "dec": base["name"]}
+                        k = json.dumps(sig, sort_keys=True)
+                        viol_sigs[k] = viol_sigs.get(k, 0) + 1
+                        res.add_violation(sig, f"decode/mutate/decode of {short(dec(c[1]))} under {base['name']} answers differently "
+                                               f"after other documents were decoded in the same process",
+                                          {"ref": "vf.checks.c17:replay_case", "args": {"value": c[1]}})
+                        continue
                 audit_bad += 1
                 if audit_bad <= 2:
                     res.harness_errors.append(f"nondeterministic worker answer under {cfg['name']} for case {workers.line(c)[:200]}")
@@ -721,7 +823,8 @@ def run(tier: str, only=None) -> core.Result:
     if not res.harness_errors and tally.c.get("values_encoded_differently_by_the_backends", 0) == 0:
         res.harness_errors.append("vacuous: the two configurations never produced different encodings - is orjson really masked?")
     cov = res.coverage
-    cov["evaluations"] = tally.c.get("roundtrips_judged", 0) + tally.c.get("message_roundtrips_judged", 0)
+    cov["evaluations"] = tally.c.get("roundtrips_judged", 0) + tally.c.get("message_roundtrips_judged", 0) + \
+        tally.c.get("decode_mutate_decode_sequences", 0)
     cov["message_path"] = {"messages": len(msgs), "configurations": msg_hello,
                            "encodings": tally.c.get("message_encodings", 0),
                            "distinct_single_line_encodings": tally.c.get("message_distinct_encodings", 0),
@@ -752,7 +855,9 @@ def run(tier: str, only=None) -> core.Result:
         "check_circular, allow_nan, skipkeys, cls; incl. the call the fallback model base makes) and each distinct encoding x {orjson, stdlib} "
         "x {loads(str), loads(bytes), load(text fp), load(bytes fp)}; evaluations = round trips judged; distinct = distinct "
         "values by type-strict canonical form; non-trivial = contains a float, an integer beyond +-2^53 or a string/key "
-        "that is not printable ASCII or needs escaping; message path: JSON-RPC requests/notifications/results/errors x 6 ids x "
+        "that is not printable ASCII or needs escaping; statefulness: every container value x {orjson, stdlib} x 4 decoding entry "
+        "points: decode twice (no shared nested container), mutate the first result in place at depth 0-2, decode again "
+        "through all 4 entry points (must equal v); message path: JSON-RPC requests/notifications/results/errors x 6 ids x "
         "7 payloads (line breaks, U+2028/2029/0085, NUL, 64-bit boundary ints, floats, nesting, _meta/schema keys) as "
         "parse_message / specific class / JSONRPCMessage objects x {model_dump_json(exclude_none=True[, by_alias=True]), "
         "the frame the stdio writer sends (model and dict)} in the four configurations {orjson, stdlib} x {Pydantic, "
@@ -764,6 +869,7 @@ def run(tier: str, only=None) -> core.Result:
         "output for a non-null indent (incl. indent=0, which the standard library renders over several lines) is not a compact encoding and is not judged",
         "message path: the value a message stands for is its own model_dump with the same arguments, taken in the producing worker; a difference of that value between the Pydantic and the fallback backend is C09's subject and only counted here",
         "fast_json.dump is judged with a text file object (the json.dump contract); dump to a binary file object works only with orjson and is not judged",
+        "statefulness part: the in-place mutations are an append and an item replacement on every list, a new key and a key deletion on every dict, at nesting depth 0-2 of the decoded value; the value must decode unchanged afterwards through every decoding entry point",
         "the orjson-masked worker models 'orjson not installed' by an import blocker placed on sys.meta_path before chuk_mcp is imported",
     ]
     return res
@@ -786,7 +892,12 @@ def replay_case(args: Dict[str, Any]) -> Dict[str, Any]:
     tally = Tally()
     pools = start_pools(1)
     try:
-        viol = judge_block([v], pools, tally, {})
+        spools = start_pools(1)
+        try:
+            viol = judge_block([v], pools, tally, {}, "full", spools)
+        finally:
+            for p in spools.values():
+                p.close()
         enc_ans = {n: p.map([["enc", enc(v)]])[0] for n, p in pools.items()}
     finally:
         for p in pools.values():
